@@ -16,6 +16,15 @@ pub enum MethSpec {
     None,
     ForEach,
     Filter(BTreeSet<Tri>),
+    /// for_each closure doing the crate's Dijkstra idiom: every node value is reset (root 0, others +-1e6) and an
+    /// edge (u, v, e) lowers (pfs-max: raises) v's value through interior mutability while v may be queued.
+    /// No model oracle (a heap whose keys move is only required to be *the same* heap): used by the
+    /// metamorphic (C08) and differential (C15) comparisons, which compare calls, result and final values.
+    Relax,
+    /// filter closure that itself runs a search (`algo`, no options) from the offered edge's target for node `k`
+    /// and accepts the edge iff it is found or the target is `k` (a pure predicate: "can still reach k");
+    /// the set is what the model says this predicate rejects
+    FilterNested(Algo, Key, BTreeSet<Tri>),
 }
 impl MethSpec {
     pub fn kind(&self) -> &'static str {
@@ -23,11 +32,13 @@ impl MethSpec {
             MethSpec::None => "none",
             MethSpec::ForEach => "for_each",
             MethSpec::Filter(_) => "filter",
+            MethSpec::Relax => "for_each(relax-values)",
+            MethSpec::FilterNested(..) => "filter(nested-search)",
         }
     }
     pub fn rejected(&self) -> BTreeSet<Tri> {
         match self {
-            MethSpec::Filter(r) => r.clone(),
+            MethSpec::Filter(r) | MethSpec::FilterNested(_, _, r) => r.clone(),
             _ => BTreeSet::new(),
         }
     }
@@ -65,6 +76,29 @@ pub struct SOut {
     pub calls: Vec<Tri>,
     pub panic: Option<String>,
     pub over_budget: bool,
+    /// MethSpec::Relax: node values after the search
+    pub final_prio: Option<Vec<i32>>,
+    /// MethSpec::FilterNested: the nested search contradicted the model's reachability
+    pub nested_wrong: Option<String>,
+}
+
+/// the rejected set of the predicate "the edge's target can reach k (along plain edges)" over the triples a
+/// traversal in the given orientation is offered
+pub fn nested_filter(g: &GCase, directed: bool, transposed: bool, algo: Algo, k: Key) -> MethSpec {
+    let plain = g.view(directed, false);
+    let none = BTreeSet::new();
+    let acc_all = Acc { rejected: &none };
+    let reaches: Vec<bool> = (0..g.n).map(|v| v as Key == k || plain.reach(v as Key, &acc_all).contains(&k)).collect();
+    let view = g.view(directed, transposed);
+    let mut rej = BTreeSet::new();
+    for s in 0..view.n {
+        for &(t, e) in &view.inc[s] {
+            if !reaches[t as usize] {
+                rej.insert((s as Key, t, e));
+            }
+        }
+    }
+    MethSpec::FilterNested(algo, k, rej)
 }
 
 pub fn build<F: Flavour>(g: &GCase) -> Vec<F::Node> {
@@ -129,7 +163,56 @@ pub fn exec<F: Flavour>(nodes: &[F::Node], root: Key, cell: &Cell, meth: &MethSp
     let calls: RefCell<Vec<Tri>> = RefCell::new(vec![]);
     let rej = meth.rejected();
     let mut out = SOut { handles_ok: true, found_same_alloc: true, ..Default::default() };
+    let relax = *meth == MethSpec::Relax;
+    let maxmode = matches!(cell, Cell::Search(c) if c.algo == Algo::PfsMax);
+    let saved: Vec<i32> = if relax { nodes.iter().map(|n| F::prio(n)).collect() } else { vec![] };
+    if relax {
+        for (i, n) in nodes.iter().enumerate() {
+            F::set_prio(n, if i == root as usize { 0 } else if maxmode { -1_000_000 } else { 1_000_000 });
+        }
+    }
+    let nested_wrong: RefCell<Option<String>> = RefCell::new(None);
     let r = catch_unwind(AssertUnwindSafe(|| {
+        let mut rl = |e: &F::Edge| {
+            {
+                let mut c = calls.borrow_mut();
+                c.push(F::tri(e));
+                if c.len() > budget {
+                    drop(c);
+                    panic!("{}", BUDGET_MSG);
+                }
+            }
+            let (u, v, w) = (F::e_src(e), F::e_dst(e), (F::e_val(e) % 1000) as i32);
+            if maxmode {
+                if F::prio(v) < F::prio(u) - w {
+                    F::set_prio(v, F::prio(u) - w);
+                }
+            } else if F::prio(v) > F::prio(u) + w {
+                F::set_prio(v, F::prio(u) + w);
+            }
+        };
+        let (nalgo, nk) = if let MethSpec::FilterNested(a, k, _) = meth { (*a, *k) } else { (Algo::Bfs, 0) };
+        let mut fnest = |e: &F::Edge| -> bool {
+            let t = F::tri(e);
+            {
+                let mut c = calls.borrow_mut();
+                c.push(t);
+                if c.len() > budget {
+                    drop(c);
+                    panic!("{}", BUDGET_MSG);
+                }
+            }
+            let v = F::e_dst(e);
+            let reaches = F::key(v) == nk
+                || match F::search(v, &SearchCfg { algo: nalgo, transposed: false, term: Term::Search, target: Some(nk) }, Meth::None) {
+                    SearchRes::Node(n) => n.is_some(),
+                    SearchRes::Path(p) => p.is_some(),
+                };
+            if reaches == rej.contains(&t) && nested_wrong.borrow().is_none() {
+                *nested_wrong.borrow_mut() = Some(format!("nested {:?} search from {} for {} says reachable={} while running inside the filter of the outer search (offered edge {:?})", nalgo, F::key(v), nk, reaches, t));
+            }
+            reaches
+        };
         let mut fe = |e: &F::Edge| {
             let mut c = calls.borrow_mut();
             c.push(F::tri(e));
@@ -152,6 +235,8 @@ pub fn exec<F: Flavour>(nodes: &[F::Node], root: Key, cell: &Cell, meth: &MethSp
             MethSpec::None => Meth::None,
             MethSpec::ForEach => Meth::ForEach(&mut fe),
             MethSpec::Filter(_) => Meth::Filter(&mut fl),
+            MethSpec::Relax => Meth::ForEach(&mut rl),
+            MethSpec::FilterNested(..) => Meth::Filter(&mut fnest),
         };
         let rootn = &nodes[root as usize];
         let mut o = SOut { handles_ok: true, found_same_alloc: true, ..Default::default() };
@@ -198,6 +283,13 @@ pub fn exec<F: Flavour>(nodes: &[F::Node], root: Key, cell: &Cell, meth: &MethSp
         }
     }
     out.calls = calls.into_inner();
+    out.nested_wrong = nested_wrong.into_inner();
+    if relax {
+        out.final_prio = Some(nodes.iter().map(|n| F::prio(n)).collect());
+        for (n, p) in nodes.iter().zip(saved) {
+            F::set_prio(n, p);
+        }
+    }
     out
 }
 
@@ -304,6 +396,16 @@ fn algo_prop(a: Algo) -> &'static str {
 /// The oracle for one executed cell.
 pub fn judge(directed: bool, g: &GCase, root: Key, cell: &Cell, meth: &MethSpec, out: &SOut) -> Vec<Tagged> {
     let mut fails: Vec<Tagged> = vec![];
+    if *meth == MethSpec::Relax {
+        // values move during the search: only crashes are judged here; the comparisons are made by the callers
+        if let Some(p) = &out.panic {
+            fails.push(Tagged { props: vec!["C04", "C05", "C06", "C07", "C08", "C09", "C10"], fail: Fail { clause: "search.panic", detail: p.clone() } });
+        }
+        return fails;
+    }
+    if let (Some(w), MethSpec::FilterNested(a, _, _)) = (&out.nested_wrong, meth) {
+        fails.push(Tagged { props: vec![algo_prop(*a), "C07"], fail: Fail { clause: "filter.nested-search-wrong-answer", detail: w.clone() } });
+    }
     let transposed = cell.transposed();
     let view = g.view(directed, transposed);
     let rejected = meth.rejected();
